@@ -46,20 +46,20 @@ Definition in_klang (k : klang) (w : bytes) : Prop := exists a, In a k /\ in_alt
 
 Inductive tm :=
 | TLit (w : bytes)
-| TFake (k : klang)
+| TFake (k : nat)                               (* the k-th generator of the table of the scenario files *)
 | TCat (t1 t2 : tm)
 | TSub (t : tm) (start len : nat)               (* substr: `len` characters from `start` *)
 | TAny (t1 t2 : tm)                             (* if: either branch *)
 | TTop.                                         (* anything (an operator the model does not read) *)
 
-Inductive den : tm -> bytes -> Prop :=
-| den_lit w : den (TLit w) w
-| den_fake k w : in_klang k w -> den (TFake k) w
-| den_cat t1 t2 w1 w2 : den t1 w1 -> den t2 w2 -> den (TCat t1 t2) (w1 ++ w2)
-| den_sub t a n w : den t w -> den (TSub t a n) (firstn n (skipn a w))
-| den_any_l t1 t2 w : den t1 w -> den (TAny t1 t2) w
-| den_any_r t1 t2 w : den t2 w -> den (TAny t1 t2) w
-| den_top w : den TTop w.
+Inductive den (kinds : list klang) : tm -> bytes -> Prop :=
+| den_lit w : den kinds (TLit w) w
+| den_fake k w : in_klang (nth k kinds []) w -> den kinds (TFake k) w
+| den_cat t1 t2 w1 w2 : den kinds t1 w1 -> den kinds t2 w2 -> den kinds (TCat t1 t2) (w1 ++ w2)
+| den_sub t a n w : den kinds t w -> den kinds (TSub t a n) (firstn n (skipn a w))
+| den_any_l t1 t2 w : den kinds t1 w -> den kinds (TAny t1 t2) w
+| den_any_r t1 t2 w : den kinds t2 w -> den kinds (TAny t1 t2) w
+| den_top w : den kinds TTop w.
 
 (* ---- the abstraction: characters, length bounds, first and last character, and which one-character strings occur *)
 
@@ -147,13 +147,14 @@ Definition aslot (s : slot) : aval :=
 Definition aalt (a : alt) : aval := fold_right (fun s x => acat (aslot s) x) (V (aword [])) a.
 Definition aklang (k : klang) : aval := fold_right (fun a x => ajoin (aalt a) x) Bot k.
 
-Fixpoint abs (t : tm) : aval :=
+(* tbl: the abstract values of the generators, computed once (map aklang kinds) *)
+Fixpoint abs (tbl : list aval) (t : tm) : aval :=
   match t with
   | TLit w => V (aword w)
-  | TFake k => aklang k
-  | TCat t1 t2 => acat (abs t1) (abs t2)
-  | TSub t a n => asub (abs t) a n
-  | TAny t1 t2 => ajoin (abs t1) (abs t2)
+  | TFake k => nth k tbl Bot
+  | TCat t1 t2 => acat (abs tbl t1) (abs tbl t2)
+  | TSub t a n => asub (abs tbl t) a n
+  | TAny t1 t2 => ajoin (abs tbl t1) (abs tbl t2)
   | TTop => Top
   end.
 
